@@ -209,9 +209,12 @@ func init() {
 	c02 = append(c02, HarnessSpec{Pkg: ix, Func: "ZZ_C02_Search", Solver: "cvc5", Desc: "multi-key sorts whose first key ties",
 		Quick:  tier(map[string]int{"ties": 1, "sortfrom": 7, "sortings": 3, "queryfrom": 6, "queryforms": 1, "restricts": 1, "indexfiles": 2}),
 		Bounds: "streams that tie on first and on last packet time; sort lists (ftime, -id), (-ltime, cport) and (-ltime, -cport): the first key has a sorted lookup, the second decides; cbytes bound query; limits 1,2,3,100; skip 0,1"})
+	c02 = append(c02, HarnessSpec{Pkg: ix, Func: "ZZ_C02_Search", Solver: "cvc5", Desc: "time variable of a sub-query",
+		Quick:  tier(map[string]int{"queryfrom": 10, "queryforms": 1, "sortings": 2, "restricts": 1, "indexfiles": 2, "limits": 1, "skips": 1}),
+		Bounds: "`@sub:id:S ftime:@sub:ftime@+D:` with symbolic S and D over 1..2 index files with different reference times: the sub-query's stream may live in the other file"})
 	registry["C02"] = CheckSpec{Property: "C02", Harnesses: c02,
 		Assumptions: []string{"queries are given in normal form (ConditionsSet built directly; the parser side is C03)", "stream population: fixed concrete streams written by the real writer; what varies symbolically are the query constants, tag match bits and the id restriction", "oracle: filter by the harness's own reading of the query on its own stream records, rank by the sort key with ties in any order, page, more <=> matches beyond the page"},
-		Outside: []string{"grouping", "sub-queries feeding variables", "data conditions (C04)", "more than 4 streams / 2 files", "host conditions"},
+		Outside: []string{"grouping", "sub-queries feeding variables other than the one time-variable form", "data conditions (C04)", "more than 4 streams / 2 files", "host conditions"},
 	}
 
 	mg := "internal/index/manager"
